@@ -971,7 +971,7 @@ fn e7(out: &mut Out, os: &[u32], n: usize, rng: &mut Rng) {
 /// Every sequence of up to four string elements from {high escape, low escape, ordinary
 /// escape, raw character}, as a value and as a key (C12's own family).
 fn surrogate_sequences(out: &mut Out, os: &[u32]) {
-    let elems = ["\\ud83d", "\\ude00", "\\n", "x", "\\u0041", "\\udbff", "\\udc00"];
+    let elems = ["\\ud83d", "\\ude00", "\\n", "x", "\\u0041", "\\udbff", "\\udc00", "\u{e9}", "\u{1f600}"];
     for n in 0..=4usize {
         let total = elems.len().pow(n as u32);
         for code in 0..total {
@@ -1098,6 +1098,29 @@ fn e9(out: &mut Out, os: &[u32], full: bool) {
     }
 }
 
+/// E10: the four characters after `\u`: every word of length 4 over hex digits of both cases and
+/// the characters a lenient integer parser would let through (sign, space, underscore, `x`, a
+/// non-ASCII digit), alone and after a pending high surrogate.
+fn e10(out: &mut Out, os: &[u32], full: bool) {
+    let alpha: Vec<char> = if full { "09afAF+- _xgG.\u{663}".chars().collect() } else { "0aF+- _x\u{663}".chars().collect() };
+    let n = alpha.len();
+    for code in 0..n.pow(4) {
+        let mut c = code;
+        let mut w = String::new();
+        for _ in 0..4 {
+            w.push(alpha[c % n]);
+            c /= n;
+        }
+        for &o in os {
+            out.case(|| text_case(o, &format!("\"\\u{w}\"")));
+            if code % 7 == 0 {
+                out.case(|| text_case(o, &format!("\"\\ud800\\u{w}\"")));
+                out.case(|| text_case(o, &format!("{{\"\\u{w}\":0}}")));
+            }
+        }
+    }
+}
+
 /// The shared suite.  `os` = option records to exercise.
 pub fn suite(args: &Args, out: &mut Out, os: &[u32], weight: usize) {
     let mut rng = Rng::new(args.seed);
@@ -1127,6 +1150,7 @@ pub fn suite(args: &Args, out: &mut Out, os: &[u32], weight: usize) {
     e7(out, os, n7, &mut rng);
     e8(out, os, full, &mut rng);
     e9(out, os, full && weight == 2);
+    e10(out, os, full);
 }
 
 pub fn generate_c01(args: &Args, out: &mut Out) {
